@@ -318,6 +318,13 @@ func importNud(p *parser, t *token) *token {
 		p.Advance(")")
 		return t
 	}
+	if p.Token.Symbol == "(name)" { // import alias "path"
+		t.Append(p.Advance("(name)"))
+		path := p.Advance("(string)")
+		path.Unquote()
+		t.Append(path)
+		return t
+	}
 	appendAlias(p, t)
 	return t
 }
